@@ -53,6 +53,21 @@ Theorem C17_close_releases_all : forall c h1 h2,
   let s := run c (h1 ++ SClose :: h2) st_init in
   k_led (K s) = ∅ /\ k_regs (K s) = ∅ /\ closed s = true.
 Proof. exact close_releases_all. Qed.
+(* the premise [names_clean] always holds: a watch is only ever filed under a cleaned name (addWatch cleans its argument
+   and the symlink target; the names of directory entries reach the tables through addWatch), for every history, every
+   filesystem content and every configuration … *)
+Theorem C17_names_clean : forall c h, names_clean (run c h st_init).
+Proof. exact names_clean_run. Qed.
+Theorem C17_names_clean_before_close : forall c h, names_clean (before_close c (run c h st_init)).
+Proof. exact names_clean_before_close. Qed.
+(* … so Close releases everything without it (the two premises left say that Close has not been called before) *)
+Theorem C17_close_releases_all_unconditional : forall c h1 h2,
+  fx_close c = true ->
+  let s0 := before_close c (run c h1 st_init) in
+  closed s0 = false -> gone s0 = false ->
+  let s := run c (h1 ++ SClose :: h2) st_init in
+  k_led (K s) = ∅ /\ k_regs (K s) = ∅ /\ closed s = true.
+Proof. exact close_releases_all_unconditional. Qed.
 (* the witness of the repaired defect (watch filed under the raw, unclean absolute link target: Close did not find it) *)
 Theorem C17_close_unclean_link_released :
   let s := run cfg_repo w_unclean_link_close st_init in
@@ -114,6 +129,9 @@ Print Assumptions C17_watch_end_closes_fd.
 Print Assumptions C17_watch_end_closes_fd_refuted.
 Print Assumptions C17_close_empties.
 Print Assumptions C17_close_releases_all.
+Print Assumptions C17_names_clean.
+Print Assumptions C17_names_clean_before_close.
+Print Assumptions C17_close_releases_all_unconditional.
 Print Assumptions C17_close_unclean_link_released.
 Print Assumptions C17_before_fix_refuted.
 Print Assumptions C17_remove_unlists.
